@@ -72,6 +72,7 @@ def run(chk):
     r5_async_saver_outcome(chk, repo)
     r6_rechunker_order(chk, repo)
     r7_streams(chk, repo)
+    r8_per_chunk_guard(chk, repo)
 
 
 # ------------------------------------------------------------------------------------ R1
@@ -428,8 +429,47 @@ def r7_streams(chk, repo):
             chk.check(id(st) in inside, R, cp, st, "one loader (a generator) is shared by all target frontends: the first copy exhausts it and every further target is written empty and marked complete",
                       site_text="copy_to_frontend: a fresh loader for every target frontend", site={"function": cp.qualname, "rule": "generator created inside the loop that consumes it"})
 
+# ------------------------------------------------------------------------------------ R8
+def r8_per_chunk_guard(chk, repo):
+    chk.describe("C16.R8", "building a data type chunk by chunk is refused for every plugin in the lineage that looks across chunk boundaries (subclass-aware test), however far downstream of the per-chunk data type it is")
+    R = "C16.R8"
+    f = repo.func("Context.__assign_chunk_number_to_plugin", CONTEXT)
+    cfg = cfg_of(f)
+    mod = repo.module(CONTEXT)
+    tab = mod.assigns.get("NOT_PER_CHUNK_ALLOWED_PLUGINS")
+    members = {norm(e).split(".")[-1] for e in tab.elts} if isinstance(tab, (ast.Tuple, ast.List)) else set()
+    chk.check({"LoopPlugin", "OverlapWindowPlugin"} <= members, R, "strax/context.py", None, f"the list of plugin kinds that cannot be computed per chunk no longer contains the loop and overlap-window plugins ({sorted(members)})", site_text="NOT_PER_CHUNK_ALLOWED_PLUGINS contains LoopPlugin, OverlapWindowPlugin")
+    raises = []
+    for n in cfg.stmt_nodes():
+        if not isinstance(n.stmt, ast.Raise):
+            continue
+        lits = cfg.guard_literals(n)
+        for e, pol, g in lits:
+            if "NOT_PER_CHUNK_ALLOWED_PLUGINS" in norm(e):
+                raises.append((n, e, pol, lits))
+    chk.check(len(raises) >= 1, R, f, None, "per-chunk processing is no longer refused for plugins listed in NOT_PER_CHUNK_ALLOWED_PLUGINS", site_text="__assign_chunk_number_to_plugin: raise for not-per-chunk plugins")
+    for n, e, pol, lits in raises[:1]:
+        okt = pol is True and isinstance(e, ast.Call) and call_name(e) in ("issubclass", "isinstance") and len(e.args) == 2 and norm(e.args[1]) == "NOT_PER_CHUNK_ALLOWED_PLUGINS"
+        chk.check(okt, R, f, n.stmt, f"`{norm(e)[:80]}` is not a subclass-aware test: user plugins always subclass the listed kinds, so an identity / membership test never matches", site_text="__assign_chunk_number_to_plugin: issubclass / isinstance against the list", site={"function": f.qualname, "rule": "subclass-aware"})
+        lp0 = enclosing(n.stmt, (ast.For,))
+        in_lp = {id(x) for x in ast.walk(lp0)} if lp0 is not None else set()
+        others = [(x, p_) for x, p_, g in lits if x is not e and id(g.owner) in in_lp]
+        direct = [x for x, p_ in others if ".depends_on" in norm(x) and "get_dependencies" not in norm(x)]
+        trans = [x for x, p_ in others if "get_dependencies(" in norm(x) and p_ is True]
+        PAR = f.params[2] if len(f.params) > 2 else "chunk_number"
+        chk.check(not direct and (not others or bool(trans)), R, f, n.stmt, "the refusal only looks at plugins that depend *directly* on the per-chunk data type" + (f" (`{norm(direct[0])[:70]}`)" if direct else "") + ": an overlap / loop plugin further downstream is computed one chunk at a time, without its neighbours, and the merged result differs from the directly made data at every chunk boundary",
+                  site_text="__assign_chunk_number_to_plugin: refusal covers transitive dependants", site={"function": f.qualname, "rule": "transitive"})
+        lp = enclosing(n.stmt, (ast.For,))
+        chk.check(lp is not None and norm(lp.iter).endswith(".lineage"), R, f, n.stmt, "the refusal is not evaluated for every plugin of the target's lineage", site_text="__assign_chunk_number_to_plugin: for every entry of plugin.lineage")
+
 
 WITNESSES = [
+    W("per-chunk refusal only for direct dependants (the original defect)", "C16.R8", CONTEXT,
+      "if issubclass(p.__class__, NOT_PER_CHUNK_ALLOWED_PLUGINS) and (\n                self.get_dependencies(last_provide) & set(chunk_number)\n            ):", "if issubclass(p.__class__, NOT_PER_CHUNK_ALLOWED_PLUGINS) and (\n                set(p.depends_on) & set(chunk_number)\n            ):"),
+    W("per-chunk refusal by class identity", "C16.R8", CONTEXT,
+      "if issubclass(p.__class__, NOT_PER_CHUNK_ALLOWED_PLUGINS) and (", "if p.__class__ in NOT_PER_CHUNK_ALLOWED_PLUGINS and ("),
+    W("overlap plugins allowed per chunk", "C16.R8", CONTEXT,
+      "NOT_PER_CHUNK_ALLOWED_PLUGINS = (strax.LoopPlugin, strax.OverlapWindowPlugin)", "NOT_PER_CHUNK_ALLOWED_PLUGINS = (strax.LoopPlugin,)"),
     W("load wrapper skips empty chunks", "C16.R7", RECH,
       "t1 = time.time()\n                load_time_seconds.append(t1 - t0)", "t1 = time.time()\n                if not data.nbytes:\n                    continue\n                load_time_seconds.append(t1 - t0)"),
     W("copy wrapper stops at the first empty chunk", "C16.R7", CONTEXT,
